@@ -516,9 +516,19 @@ def h_execute_steps(sx):
     inner_out = sx.int("inner_outcome", 0, 2)
     nested_kind = sx.int("nested_has", 0, 2)     # 0: plain, 1: with table, 2: with text
 
+    two_levels = sx.bool("inner_step_executes_steps_itself")
+
+    def innermost(context):
+        seen["innermost_text"] = context.text
+
     def inner(context):
         seen["inner_table"] = context.table
         seen["inner_text"] = context.text
+        if two_levels:
+            # a second level of nesting: every level gets its own text/table back
+            context.execute_steps(u'Given innermost\n  """\n  deepest doc\n  """')
+            seen["inner_table_after"] = context.table
+            seen["inner_text_after"] = context.text
         if inner_out == 1:
             raise AssertionError("inner fails")
         if inner_out == 2:
@@ -547,6 +557,7 @@ def h_execute_steps(sx):
             pass
         seen["text2_after"] = context.text
         seen["table2_after"] = context.table
+    reg.add_step_definition("given", u"innermost", innermost)
     reg.add_step_definition("given", u"inner", inner)
     reg.add_step_definition("given", u"outer", outer)
     reg.add_step_definition("when", u"outer2", outer2)
@@ -564,6 +575,9 @@ def h_execute_steps(sx):
     sx.check(seen.get("sub_failed") == bool(inner_out != 0), "C13.exec.substep-failure-raises-assertion", detail=d)
     if not seen.get("sub_failed"):
         sx.check(seen.get("table_after") is t0 and seen.get("text_after") is None, "C13.exec.restores-table-text", detail=d)
+    if "inner_text_after" in seen:
+        sx.check(seen["inner_table_after"] is seen["inner_table"] and seen["inner_text_after"] == seen["inner_text"],
+                 "C13.exec.restores-table-text", detail=d)
     if "text2_before" in seen:
         sx.check(seen["text2_after"] == seen["text2_before"] or inner_out != 0, "C13.exec.restores-table-text", detail=d)
     return {k: (str(v) if v is not None else None) for k, v in sorted(seen.items())}
